@@ -334,6 +334,7 @@ def run(tier, seed, only=None):
     for (i, k, job, cfg), r in zip(meta, res):
         by_prog.setdefault(i, []).append((k, job, cfg, r))
     orders_rejected = 0
+    failed_generations = {}
     programs_compared = 0
     for i, runs in sorted(by_prog.items()):
         ok = [(k, job, cfg, r) for (k, job, cfg, r) in runs if r.get("kind") == "ok"]
@@ -341,9 +342,10 @@ def run(tier, seed, only=None):
             if r.get("kind") == "err" and "ClangDiagnostic" in (r.get("err") or ""):
                 orders_rejected += 1  # generator produced an order clang rejects: not bindgen's problem
             elif r.get("kind") != "ok":
-                sig = {"class": "generation-failed", "kind": r.get("kind"), "err": (r.get("err") or "")[:160],
-                       "engine": "S-a"}
-                out.violation(sig, {"engine": "c07", "kind": "graph", "job": job, "fix": cfg, "observed": r})
+                # A generation that panics or fails is C12's subject, not C07's
+                # (e.g. the known --no-recursive-allowlist assertions): such an
+                # order is left out of the comparison and counted.
+                failed_generations[r.get("kind", "?")] = failed_generations.get(r.get("kind", "?"), 0) + 1
         for (k, job, cfg, r) in ok:
             st.absorb(r)
             for p in solver_problems(r):
@@ -414,6 +416,7 @@ def run(tier, seed, only=None):
         "generated_programs_compared_across_orders": programs_compared,
         "generated_programs_with_all_orders_enumerated": exhaustive_programs,
         "generated_orders_rejected_by_clang": orders_rejected,
+        "generated_orders_whose_generation_failed": failed_generations,
         "runs_per_hour": int(st.generations / hours),
         "simulated_time": "no clock in this system; simulated time is scheduler steps (see scheduler_steps_simulated)",
         "real_vs_stub": {"bindgen library": "real (working tree, --cfg bindgen_verif)", "libclang 14": "real",
